@@ -1,4 +1,5 @@
 import DDP.Generated.Ladder
+import DDP.Impl.LadderParse
 
 /-!
 # L1: the precedence ladder of the expression parser
@@ -70,5 +71,37 @@ def isPrefixForm (r : Rung) : Bool :=
   match r.loops with
   | [l] => l.returns && !l.rebinds
   | _ => false
+
+/-! ### the operator table of the chain rungs, read off the regenerated ladder
+
+`DDP.LadderParse` is generic in its table; this is the table of the DDP that is in /repo now: the rungs from `boolOR` up
+to (not including) `unary`, and for every plain infix operator the rung whose loop builds it. -/
+
+/-- the plain infix operators (one keyword or keyword sequence between the operands, nothing after the right operand), in
+the numbering of the tie (`vlib/laddercorr.py`) -/
+def chainOps : List String :=
+  ["BIN_OR", "BIN_AND", "BIN_LOGIC_OR", "BIN_LOGIC_XOR", "BIN_LOGIC_AND", "BIN_PLUS", "BIN_MINUS", "BIN_CONCAT",
+   "BIN_MULT", "BIN_DIV", "BIN_MOD"]
+
+/-- prefix operators handled by `unary` calling itself -/
+def prefixOps : List String := ["UN_NOT", "UN_LOGIC_NOT", "UN_ABS", "UN_LEN"]
+
+def chainBase : Nat := (level "boolOR").getD 0
+
+/-- number of chain rungs: `boolOR` … `factor` -/
+def chainCount : Nat := (level "unary").getD 0 - chainBase
+
+/-- rung of operator number `o` counted from `boolOR`: the loosest rung of the regenerated ladder that builds it; numbers
+outside the table get `chainCount` (no loop tests for them) -/
+def chainLevel (o : Nat) : Nat :=
+  match chainOps[o]? with
+  | some op =>
+    match buildersOf op with
+    | r :: _ => (match level r with | some l => l - chainBase | none => chainCount)
+    | [] => chainCount
+  | none => chainCount
+
+/-- the table of the DDP in /repo -/
+def ddpTbl : DDP.LadderParse.Tbl := ⟨chainCount, chainLevel⟩
 
 end DDP.Ladder
